@@ -114,7 +114,7 @@ def run_contract(envr, c, func, recv, args, kwargs, clauses, fields=None, raises
     old_recv = heap.snapshot(recv, memo)
     old_args = [heap.snapshot(a, memo) for a in args]
     old_kwargs = {k: heap.snapshot(v, memo) for k, v in kwargs.items()}
-    spec = CallSpec(func, old_recv, old_args, old_kwargs, fields)
+    spec = CallSpec(func, old_recv, old_args, old_kwargs, {k: heap.snapshot(v, memo) for k, v in fields.items()})
     c.callspec = spec
     mark = c.alloc
     call_args = ([] if fi.kind in ('static', 'function') else [recv]) + list(args)
